@@ -452,7 +452,9 @@ def o_deadlock_report(case, obs):
         bad = [qname(i) for i in added if pend[i] >= 1]
         if bad:
             return "cmd %d: MessageLoss(%d) although models of the simulation hold unprocessed messages: %s (signature C06/submodel-mailbox-not-observed when these are sub-models)" % (ff - 1, n, bad)
-        lost = sum(pend[i] for i in range(len(models)) if i not in added)
+        # a never-added mailbox holds at most its capacity; what was sent beyond that is still held by
+        # blocked senders and was never enqueued
+        lost = sum(min(models[i]["cap"], pend[i]) for i in range(len(models)) if i not in added)
         if n != lost:
             return "cmd %d: MessageLoss(%d) but %d messages sit in mailboxes never added" % (ff - 1, n, lost)
     return None
@@ -497,4 +499,39 @@ def o_init(case, obs):
         for i in range(len(models)):
             if is_added(i) and i not in seen_init:
                 return "added model %d (%s) was never initialised" % (i, qname(i))
+    return None
+
+
+def o_attribution(case, obs):
+    """C11/C16: a Panic names the model whose script panics (codes are unique per model in the fault
+    benches) by its qualified name parent.child; NoRecipient names a model that sends to a dropped
+    mailbox, or none for a source action."""
+    models = case["models"]
+    def qname(i):
+        parts, cur = [], i
+        while cur is not None:
+            parts.append(str(cur) if models[cur].get("named", True) else "?")
+            cur = models[cur].get("parent")
+        return ".".join(reversed(parts))
+    for j, (res, t, es) in enumerate(obs):
+        k = kind(res)
+        if k == "panic":
+            _, name, code = res.split(":")
+            owners = [i for i, m in enumerate(models)
+                      for sc in (m.get("handlers", []) + [m.get("init", [])] + [r[0] for r in m.get("repliers", [])])
+                      for op in sc if op[0] == "pan" and str(op[1]) == code]
+            if owners and name not in [qname(i) for i in owners]:
+                return "cmd %d: Panic attributed to '%s', but payload %s is raised by model %s" % (j - 1, name, code, [qname(i) for i in owners])
+        elif k == "norecip":
+            name = res.split(":", 1)[1]
+            dropped = set(i for i, m in enumerate(models) if m.get("place", 0) == 2)
+            senders = [qname(i) for i, m in enumerate(models)
+                       if any(c[2][0] == "m" and c[2][1] in dropped for cs in m.get("outs", []) for c in cs)
+                       or any(q[2] in dropped for qs in m.get("reqs", []) for q in qs)]
+            src = any(c[2][0] == "m" and c[2][1] in dropped for cs in case.get("sources", []) for c in cs)
+            if name == "-":
+                if not src:
+                    return "cmd %d: NoRecipient without a sender name although no source action targets a dropped mailbox" % (j - 1)
+            elif name not in senders:
+                return "cmd %d: NoRecipient attributed to '%s'; models sending to a dropped mailbox: %s" % (j - 1, name, senders)
     return None
